@@ -35,10 +35,14 @@ OpsOf(t) ==
   \cup {[k |-> "rename", p |-> pq[1], q |-> pq[2], c |-> 0] :
            pq \in {y \in (FP \X FP) \cup (DP \X DP) : CanRename(t, y[1], y[2])}}
 
+\* mid-step operations: the user acts right after the k-th provider call the engine makes in the following sync steps
+MidGaps == {"M1", "M2", "M3", "M4"}
+MidK(g) == CASE g = "M1" -> 1 [] g = "M2" -> 2 [] g = "M3" -> 3 [] OTHER -> 4
 OpTok(s, op) ==
   CASE op.k \in {"create", "write"} -> <<"U", s - 1, <<op.k, op.p, op.c>>>>
     [] op.k = "rename" -> <<"U", s - 1, <<op.k, op.p, op.q>>>>
     [] OTHER -> <<"U", s - 1, <<op.k, op.p>>>>
+UTok(s, op, g) == IF g \in MidGaps THEN <<"UM", MidK(g), s - 1, OpTok(s, op)[3]>> ELSE OpTok(s, op)
 GapToks(s, g) ==
   CASE g = "N"   -> <<>>
     [] g = "I"   -> << <<"EL", 0>>, <<"ER", 0>> >>
@@ -63,6 +67,7 @@ GapToks(s, g) ==
     [] g = "ISX"  -> << <<"EL", 0>>, <<"ER", 0>>, <<"S">>, <<"X">> >>   \* stop mid-sync with pending entries
     [] g = "IX"   -> << <<"EL", 0>>, <<"ER", 0>>, <<"X">> >>
     [] g = "Q"   -> << <<"Q">> >>
+    [] g \in MidGaps -> << <<"S">>, <<"S">> >>          \* (the operation itself is armed, see GenUser) two sync steps follow
 
 GenInit ==
   /\ tr = <<Base, Base>> /\ expect = Base /\ exOK = TRUE
@@ -72,16 +77,17 @@ GenInit ==
 
 GenUser(s, op, g) ==
   /\ nops < MaxOps
+  /\ (g \in MidGaps => nops > 0)         \* a mid-step operation needs earlier work for the engine to be in the middle of
   /\ LET t2 == Apply(tr[s], op)
          last == nops + 1 = MaxOps
      IN /\ UserEffect(s, op, t2)
         /\ IF last
              THEN /\ g \in (IF down THEN {"R", "Rrm", "Rrej"} \cap Gaps
-                              ELSE {"N"} \cup (Gaps \cap {"I1", "IS", "SI", "LSR", "RSL", "LSxR", "RSxL"}))   \* what happens before the final run to quiet
+                              ELSE {"N"} \cup (Gaps \cap ({"I1", "IS", "SI", "LSR", "RSL", "LSxR", "RSxL"} \cup MidGaps)))   \* what happens before the final run to quiet
                   /\ tr' = [tr EXCEPT ![s] = t2]
                   /\ down' = FALSE
-                  /\ h' = h \o <<OpTok(s, op)>> \o GapToks(s, g) \o << <<"Q">>, <<"AQ">> >>
-             ELSE /\ h' = h \o <<OpTok(s, op)>> \o GapToks(s, g)
+                  /\ h' = h \o <<UTok(s, op, g)>> \o GapToks(s, g) \o << <<"Q">>, <<"AQ">> >>
+             ELSE /\ h' = h \o <<UTok(s, op, g)>> \o GapToks(s, g)
                   /\ g \notin {"LSxR", "RSxL"}
                   /\ IF down THEN g \in {"N", "R", "Rrm", "Rrej"} ELSE g \notin {"R", "Rrm", "Rrej"}
                   /\ down' = IF g \in {"X", "ISX", "IX"} THEN TRUE ELSE IF g \in {"R", "Rrm", "Rrej"} THEN FALSE ELSE down
